@@ -59,7 +59,9 @@ def run(ctx):
                     rejected_sets += 1
     rc, out = sh("%s < %s" % (driver, ops), timeout=3000)
     nsets = 0
-    tot = {"strings": 0, "errors": 0, "nontrivial": 0, "corrbad": 0, "docdev": 0, "overtake": 0, "other": 0, "tokens": 0}
+    tot = {"strings": 0, "errors": 0, "nontrivial": 0, "corrbad": 0, "docdev": 0, "overtake": 0, "other": 0, "tokens": 0,
+           "overlap": 0, "sepsame": 0, "sepeof": 0, "sepabsorb": 0}
+    overlap_sets = 0
     samples = []
     word_sets = unclassified_sets = skipped_sets = 0
     distinct = set()
@@ -78,6 +80,7 @@ def run(ctx):
         for k in tot:
             tot[k] += int(kv.get(k, 0) or 0)
         word_sets += kv.get("word") == "true"
+        overlap_sets += int(kv.get("overlap", 0) or 0) > 0
         unclassified_sets += int(kv.get("unclassified", 0) or 0) > 0
         if int(kv.get("nontrivial", 0) or 0) > 0:
             distinct.add(hashlib.sha1(spec.encode()).hexdigest())
@@ -104,6 +107,8 @@ def run(ctx):
                 "(thorough) over the 8-symbol alphabet, random strings one longer, random strings of 6-40 symbols with spaces; "
                 "non-trivial := at least two different tokens match a prefix at the first token position (counted per string)",
         "samples": samples, "token_sets": nsets, "token_sets_with_nontrivial_strings": len(distinct), "token_sets_with_word": word_sets,
+        "token_sets_with_a_token_that_begins_with_an_extras_character": overlap_sets, "strings_on_such_sets": tot["overlap"],
+        "strings_where_separator_aware_model_equals_skipExtras_lexScan": tot["sepsame"],
         "token_sets_with_unclassified_tokens": unclassified_sets, "token_sets_skipped": skipped_sets,
         "generator_rejected": skips[:10], "totals": tot,
         "correspondence": {"compared": tot["strings"], "equal": tot["strings"] - tot["corrbad"]},
